@@ -397,6 +397,15 @@ static void leave_container(thrift_decoder_t* dec) {
     }
 }
 
+/* Skip n raw bytes of a fixed-width value.  A stream that ends inside the
+ * value is truncated: without the error the decoder would stay where it is
+ * and read the rest of the value as field headers. */
+static void skip_fixed(thrift_decoder_t* dec, size_t n) {
+    if (carquet_buffer_reader_skip(&dec->reader, n) != CARQUET_OK) {
+        set_error(dec, CARQUET_ERROR_THRIFT_TRUNCATED, "Truncated value");
+    }
+}
+
 void thrift_skip(thrift_decoder_t* dec, thrift_type_t type) {
     if (dec->status != CARQUET_OK) {
         return;
@@ -417,7 +426,7 @@ void thrift_skip(thrift_decoder_t* dec, thrift_type_t type) {
             break;
 
         case THRIFT_TYPE_BYTE:
-            carquet_buffer_reader_skip(&dec->reader, 1);
+            skip_fixed(dec, 1);
             break;
 
         case THRIFT_TYPE_I16:
@@ -427,7 +436,7 @@ void thrift_skip(thrift_decoder_t* dec, thrift_type_t type) {
             break;
 
         case THRIFT_TYPE_DOUBLE:
-            carquet_buffer_reader_skip(&dec->reader, 8);
+            skip_fixed(dec, 8);
             break;
 
         case THRIFT_TYPE_BINARY: {
@@ -474,7 +483,7 @@ void thrift_skip(thrift_decoder_t* dec, thrift_type_t type) {
         }
 
         case THRIFT_TYPE_UUID:
-            carquet_buffer_reader_skip(&dec->reader, 16);
+            skip_fixed(dec, 16);
             break;
 
         default:
